@@ -17,7 +17,7 @@ func init() {
 		Explanation: "Decides structural necessary conditions of C20: (R-C20-1) store-owned bytes (the result of invoking a Secret) never reach reflect.ValueOf -- i.e. caller-owned memory -- without passing a copying operation (bytes.Clone, slices.Clone, append onto nil, conversion to string); read-only consumers (json.Unmarshal, UnmarshalBinary) are allowed; " +
 			"(R-C20-2) Fields.Secrets and Fields.Apply compute the full name with the same callee over the same two fields (path.Join(f.prefix, fi.secretName)), the name declared is the name looked up; (R-C20-3) the loop of Apply has no early exit and every non-nil field error flows into the returned errors.Join; " +
 			"(R-C20-4) the set of plain types accepted by parseFields equals the case set of the assignment switch in apply, every other non-JSON, non-unmarshaler type is rejected with an error, an empty tag name is rejected before the field is recorded, the pointer-to-struct test precedes every reflective access, and no tagged field yields ErrNoFields; " +
-			"(R-C20-5) NewStore applies every parsed struct before it returns successfully and the struct-tagged names are merged into the declared list; (R-C20-6) string fields are filled by a []byte->string conversion and Secret fields receive the handle itself.",
+			"(R-C20-7) the struct-tag plumbing keeps no package-level state (a parse result is bound to the struct value it was parsed from; only the reflect.Type constants and ErrNoFields are shared) and the json verb is recognised from the tag pieces after the name, never from the name itself; (R-C20-5) NewStore applies every parsed struct before it returns successfully and the struct-tagged names are merged into the declared list; (R-C20-6) string fields are filled by a []byte->string conversion and Secret fields receive the handle itself.",
 		NotDecided:  "Behaviour over arbitrary run-time struct shapes (reflection); what a user's UnmarshalBinary does with the slice it is handed.",
 		Trusted:     append([]string{"bytes.Clone / slices.Clone / string(b) copy", "BinaryUnmarshaler's contract requires copying"}, commonTrusted...),
 		Assumptions: []string{},
@@ -328,6 +328,8 @@ func runC20(c *eng.Ctx, tier string) {
 	}
 
 	c20Types(c, parse, apply)
+	c20NoSharedState(c, []*ssa.Function{parse, apply, fApply, fSecrets, p.Func(setecPkg, "ParseFields"), p.Func(setecPkg, "checkUnmarshal")})
+	c20Verb(c, parse)
 
 	// R-C20-5
 	if ns := p.Func(setecPkg, "NewStore"); ns != nil {
@@ -581,5 +583,102 @@ func c20Types(c *eng.Ctx, parse, apply *ssa.Function) {
 			}
 			c.Check(okk, "R-C20-6", apply, vo.Pos(), "[]byte field value "+eng.ValStr(mi.X), "a copy of exactly the secret's bytes", "")
 		}
+	}
+}
+
+// c20NoSharedState: R-C20-7, first half.
+func c20NoSharedState(c *eng.Ctx, fns []*ssa.Function) {
+	p := c.P
+	n := 0
+	for _, f := range fns {
+		if f == nil {
+			continue
+		}
+		eng.InstrsTree(f, func(ff *ssa.Function, in ssa.Instruction) {
+			for _, op := range in.Operands(nil) {
+				g, ok := (*op).(*ssa.Global)
+				if !ok || g.Pkg == nil || g.Pkg.Pkg != p.TypesPkg(setecPkg) {
+					continue
+				}
+				n++
+				t := eng.Deref(g.Type())
+				okk := eng.IsNamed(t, "reflect", "Type") || eng.IsErrorType(t)
+				if okk {
+					// read-only use
+					if st, isSt := in.(*ssa.Store); isSt && st.Addr == ssa.Value(g) {
+						okk = false
+					}
+				}
+				c.Check(okk, "R-C20-7", ff, in.Pos(), "package-level variable "+g.Name()+" used in "+eng.FName(ff), "the tag plumbing shares only the reflect.Type constants and ErrNoFields between calls (no cache of parse results: they hold pointers and closures bound to one struct value)", "type "+eng.TypeShort(t))
+			}
+		})
+	}
+	if n == 0 {
+		c.Undecided("R-C20-7", nil, 0, "package-level variables used by the tag plumbing", "none found (expected the type constants)")
+	}
+}
+
+// c20Verb: R-C20-7, second half: isJSON comes from the tag pieces after the name.
+func c20Verb(c *eng.Ctx, parse *ssa.Function) {
+	p := c.P
+	var tagVal ssa.Value
+	eng.Instrs(parse, func(in ssa.Instruction) {
+		if call, ok := in.(*ssa.Call); ok && eng.CalleeIs(&call.Call, "reflect", "StructTag.Lookup") {
+			for _, r := range *call.Referrers() {
+				if ex, isEx := r.(*ssa.Extract); isEx && ex.Index == 0 {
+					tagVal = ex
+				}
+			}
+		}
+	})
+	if tagVal == nil {
+		c.Undecided("R-C20-7", parse, parse.Pos(), "tag lookup in parseFields", "no StructTag.Lookup found")
+		return
+	}
+	n := 0
+	eng.Instrs(parse, func(in ssa.Instruction) {
+		st, ok := in.(*ssa.Store)
+		if !ok {
+			return
+		}
+		fr, ok := eng.FieldOfAddr(st.Addr)
+		if !ok || !fr.Is(setecPkg, "fieldInfo", "isJSON") {
+			return
+		}
+		n++
+		bad := ""
+		p.BackwardSlice(st.Val, func(v ssa.Value) {
+			switch x := v.(type) {
+			case *ssa.Call:
+				cal := x.Call.StaticCallee()
+				if cal == nil {
+					return
+				}
+				o := cal
+				if cal.Origin() != nil {
+					o = cal.Origin()
+				}
+				if o.Pkg == nil || (o.Pkg.Pkg.Path() != "strings" && o.Pkg.Pkg.Path() != "slices") {
+					return
+				}
+				switch o.Name() {
+				case "Split", "SplitN", "Cut", "Fields", "FieldsFunc", "SplitSeq":
+					return
+				}
+				for _, a := range x.Call.Args {
+					if eng.Origin(a) == tagVal {
+						bad = "the verb is searched in the whole tag (" + eng.CallStr(&x.Call) + "): a secret NAME containing \"json\" switches JSON decoding on"
+					}
+				}
+			case *ssa.BinOp:
+				if eng.Origin(x.X) == tagVal || eng.Origin(x.Y) == tagVal {
+					bad = "the whole tag is compared (" + eng.ValStr(x) + ")"
+				}
+			}
+		})
+		c.Check(bad == "", "R-C20-7", parse, in.Pos(), "recognition of the json verb: isJSON = "+eng.ValStr(st.Val), "decided from the comma-separated pieces after the secret name, never from a search over the whole tag", bad)
+	})
+	if n == 0 {
+		c.Undecided("R-C20-7", parse, parse.Pos(), "store to fieldInfo.isJSON", "not found")
 	}
 }
